@@ -23,6 +23,10 @@ func (x *Exec) evalInstr(fr *Frame, st *State, in ssa.Value) (Val, bool) {
 				st.heap[key] = Store(x.heapGet(st, key, sort), ref, x.te.Zero(si.FTypes[i]))
 			}
 			st.ghost["fresh:"+ref.S] = True
+			if x.freshTypes == nil {
+				x.freshTypes = map[string]types.Type{}
+			}
+			x.freshTypes[ref.S] = T
 			return Val{T: ref, Typ: in.Type()}, true
 		}
 		c := x.newCell(in.Comment, T, in.Pos())
@@ -731,6 +735,18 @@ func (x *Exec) intBinop(st *State, op token.Token, a, b Term, u *types.Basic, re
 		x.d.DeclareFun("int_shr", "(declare-fun int_shr (Int Int) Int)")
 		return res(mk("Int", "int_shr", a, b))
 	case token.AND, token.OR, token.XOR, token.AND_NOT:
+		if p, q, ok := lit2(a, b); ok && p >= 0 && q >= 0 {
+			switch op {
+			case token.AND:
+				return res(IntLit(p & q))
+			case token.OR:
+				return res(IntLit(p | q))
+			case token.XOR:
+				return res(IntLit(p ^ q))
+			case token.AND_NOT:
+				return res(IntLit(p &^ q))
+			}
+		}
 		name := map[token.Token]string{token.AND: "int_and", token.OR: "int_or", token.XOR: "int_xor", token.AND_NOT: "int_andnot"}[op]
 		x.d.DeclareFun(name, fmt.Sprintf("(declare-fun %s (Int Int) Int)", name))
 		t := mk("Int", name, a, b)
